@@ -727,6 +727,26 @@ pub fn gen_c14(rng: &mut Rng, d: &mut Dist, idx: u64) -> Vec<String> {
     // a follow-up call: must still work and go to the right coordinator
     out.push(format!("SCRIPT {}", target));
     out.push(format!("OP c fetch_group_offsets {} {} 0", h("grp"), h(&t.name)));
+    // a broker that never stops answering with a retryable code: the call must give up after the configured attempts
+    if rng.chance(1, 6) {
+        let (api, code) = *rng.pick(&[(8i64, 16i64), (8, 14), (9, 16), (9, 14), (10, 15)]);
+        bump(d, &format!("endless-{}-on-api-{}", code, api));
+        if api == 10 {
+            out.push(format!("SCRIPT 10 {}", vec!["15"; 300].join(" ")));
+        } else {
+            out.push(format!("FAULT {} * * {} 100000", api, code));
+        }
+        match api {
+            8 => out.push(format!("OP c commit_offsets {} {} 0 7", h("grp"), h(&t.name))),
+            9 => out.push(format!("OP c fetch_group_offsets {} {} 0", h("grp"), h(&t.name))),
+            _ => {
+                out.push("OP c reset_metadata".into());
+                out.push("OP c load_metadata_all".into());
+                out.push(format!("OP c fetch_group_offsets {} {} 0", h("grp2"), h(&t.name)));
+            }
+        }
+        return out;
+    }
     // the metadata is dropped and loaded again while a coordinator is remembered - from a cluster that has lost brokers,
     // or whose coordinator was never in the metadata: what is remembered must not be trusted blindly
     if rng.chance(1, 3) {
@@ -1234,6 +1254,51 @@ pub fn gen_c05(rng: &mut Rng, d: &mut Dist, _idx: u64) -> Vec<String> {
         }
         bump(d, if unknown { "batch-with-unknown-destination" } else { "batch-all-known" });
         out.push(line);
+    }
+    // the producer layer on top: built in every way the builder offers, records with explicit partitions
+    if rng.chance(1, 2) {
+        bump(d, "via-producer");
+        let mut opts: Vec<String> = Vec::new();
+        let acks = *rng.pick(&[0i64, 1, -1]);
+        if rng.chance(2, 3) {
+            opts.push(format!("acks={}", acks));
+        }
+        if rng.chance(2, 3) {
+            opts.push(format!("acktimeout={}:{}", rng.below(40), rng.below(1000) * 1_000_000));
+        }
+        if rng.chance(1, 2) {
+            opts.push(format!("partitioner={}", rng.below(5)));
+            bump(d, "producer-with-partitioner");
+        }
+        if rng.chance(1, 3) {
+            opts.push(format!("compression={}", rng.below(3)));
+        }
+        if rng.chance(1, 3) {
+            opts.push(format!("idle={}", rng.pick(&[0u64, 60_000, 540000])));
+        }
+        rng.shuffle(&mut opts);
+        let from = if rng.chance(1, 2) { "client".to_string() } else { format!("hosts={}", cl.bootstrap()) };
+        out.push(format!("OP producer_create {} {}", from, opts.join(" ")));
+        for _ in 0..(1 + rng.below(3)) {
+            let mut line = String::from("OP send_all");
+            for _ in 0..(1 + rng.below(8)) {
+                uniq += 1;
+                let t = rng.pick(&cl.topics);
+                let led: Vec<usize> = (0..t.leaders.len()).filter(|&p| t.leaders[p] >= 0).collect();
+                if led.is_empty() {
+                    continue;
+                }
+                let p = *rng.pick(&led);
+                let k = if rng.chance(1, 2) { vec![] } else { rng.bytes(2) };
+                let mut v = uniq.to_be_bytes().to_vec();
+                let extra = rng.below(4) as usize;
+                v.extend(rng.bytes(extra));
+                line.push_str(&format!(" {} {} {} {}", h(&t.name), p, if k.is_empty() { "-".to_string() } else { hex(&k) }, hex(&v)));
+            }
+            if line != "OP send_all" {
+                out.push(line);
+            }
+        }
     }
     out
 }
